@@ -129,63 +129,45 @@ Section Material.
   Qed.
 
   Ltac prio_simpl :=
-    unfold CMP, contact_material_params, mj_contact_param, mjw_priority_solref;
+    unfold CMP, contact_material_params, mj_contact_param;
     rewrite (gtb_false pairid (- (1))) by lia;
     simpl g_priority; simpl g_solref; simpl g_solimp; simpl g_friction; simpl g_condim;
     simpl g_solmix; simpl g_adhesion.
 
-  (* different priorities: everything except solref is the higher-priority geom's, as in the reference
-     rule; solref is [mjw_priority_solref] (higher-priority geom's only if both are in standard format) *)
+  (* different priorities: everything, solref included, is the higher-priority geom's *)
   Lemma material_priority_first :
     (g_priority A > g_priority B)%Z ->
-    CMP = (g_condim A, unpack_friction (g_friction A), mjw_priority_solref A B, [0; 0], g_solimp A, g_adhesion A).
+    CMP = (g_condim A, unpack_friction (g_friction A), g_solref A, [0; 0], g_solimp A, g_adhesion A).
   Proof.
     intros Hpr. shapes. prio_simpl.
-    rewrite (gtb_true _ _ Hpr). rewrite Era, Erb, Eia, Eib, Efa.
+    rewrite !(gtb_true _ _ Hpr). rewrite ?Era, ?Erb, Eia, Eib, Efa.
     cbv beta iota zeta delta [fst snd].
     cbv [vget vmap2 vadd vscale map nth Z.to_nat Pos.to_nat Pos.iter_op Nat.add unpack_friction maxv minv lerpv mjMINMU].
-    sR. destruct (Rltb (IZR 0) ra0 && Rltb (IZR 0) rb0);
-    repeat (f_equal; try ring).
+    sR. repeat (f_equal; try ring).
   Qed.
 
   Lemma material_priority_second :
     (g_priority B > g_priority A)%Z ->
-    CMP = (g_condim B, unpack_friction (g_friction B), mjw_priority_solref B A, [0; 0], g_solimp B, g_adhesion B).
+    CMP = (g_condim B, unpack_friction (g_friction B), g_solref B, [0; 0], g_solimp B, g_adhesion B).
   Proof.
     intros Hpr. shapes. prio_simpl.
-    rewrite (gtb_false (gp (zget geoms 0)) (gp (zget geoms 1))) by lia.
-    rewrite (gtb_true _ _ Hpr). rewrite Era, Erb, Eia, Eib, Efb.
+    rewrite !(gtb_false (gp (zget geoms 0)) (gp (zget geoms 1))) by lia.
+    rewrite !(gtb_true _ _ Hpr). rewrite ?Era, ?Erb, Eia, Eib, Efb.
     cbv beta iota zeta delta [fst snd].
     cbv [vget vmap2 vadd vscale map nth Z.to_nat Pos.to_nat Pos.iter_op Nat.add unpack_friction maxv minv lerpv mjMINMU].
-    sR. rewrite (andb_comm (Rltb (IZR 0) rb0)).
-    destruct (Rltb (IZR 0) ra0 && Rltb (IZR 0) rb0).
-    - repeat (f_equal; try ring).
-    - assert (M : forall x y : R, (if Rltb y x then y else x) = (if Rltb x y then x else y)).
-      { intros x y. destruct (Rltb y x) eqn:E1; destruct (Rltb x y) eqn:E2; try reflexivity;
-        try apply Rltb_true in E1; try apply Rltb_false in E1;
-        try apply Rltb_true in E2; try apply Rltb_false in E2; lra. }
-      rewrite (M ra0 rb0), (M ra1 rb1). repeat (f_equal; try ring).
+    sR. repeat (f_equal; try ring).
   Qed.
 
-  (* THE MIXING RULE: whenever priorities are equal, or both solref are in standard format,
-     contact_material_params is the reference rule *)
-  Lemma material_mix_rule :
-    (g_priority A = g_priority B \/ (0 < vget (g_solref A) 0 /\ 0 < vget (g_solref B) 0)) ->
-    CMP = mj_contact_param A B.
+  (* THE MIXING RULE, unconditionally: contact_material_params is the reference rule *)
+  Lemma material_mix_rule : CMP = mj_contact_param A B.
   Proof.
-    intros Hc.
     destruct (Z.lt_trichotomy (g_priority A) (g_priority B)) as [Hlt | [Heq | Hgt]].
-    - destruct Hc as [Hc | [Ha Hb]]; [lia|].
-      rewrite material_priority_second by lia.
-      unfold mj_contact_param, mjw_priority_solref.
-      rewrite (gtb_false (g_priority A)) by lia. rewrite (gtb_true (g_priority B)) by lia.
-      apply (proj2 (Rltb_true _ _)) in Ha. apply (proj2 (Rltb_true _ _)) in Hb. sR. rewrite Ha, Hb. reflexivity.
+    - rewrite material_priority_second by lia.
+      unfold mj_contact_param.
+      rewrite (gtb_false (g_priority A)) by lia. rewrite (gtb_true (g_priority B)) by lia. reflexivity.
     - apply material_equal_priority; assumption.
-    - destruct Hc as [Hc | [Ha Hb]]; [lia|].
-      rewrite material_priority_first by lia.
-      unfold mj_contact_param, mjw_priority_solref.
-      rewrite (gtb_true (g_priority A)) by lia.
-      apply (proj2 (Rltb_true _ _)) in Ha. apply (proj2 (Rltb_true _ _)) in Hb. sR. rewrite Ha, Hb. reflexivity.
+    - rewrite material_priority_first by lia.
+      unfold mj_contact_param. rewrite (gtb_true (g_priority A)) by lia. reflexivity.
   Qed.
 End Material.
 
@@ -209,37 +191,26 @@ Proof.
     cbv zeta; (split; [reflexivity | repeat (apply Forall_cons; [apply M|]); apply Forall_nil]).
 Qed.
 
-(* refutation of the unrestricted rule: geom 1 has the higher priority and a standard-format solref,
-   geom 0 a direct-format one; MuJoCo copies geom 1's solref, contact_material_params returns the
-   element-wise minimum.  Replayed on the real kernels by bin/props/C04.py. *)
+(* regression witness of the repaired defect C04:contact_material_params:priority-direct-solref: geom 1 has the
+   higher priority and the standard-format solref (0.02, 1), geom 0 the direct-format (-100, -10); the contact
+   gets geom 1's solref (before the repair: the element-wise minimum (-100, -10)).  Replayed on the real
+   kernel and on mujoco.mj_collision by bin/props/C04.py. *)
 Definition wit_solref (_ g : Z) : list R := if (g =? 0)%Z then [-100; -10] else [2/100; 1].
 Definition wit_solimp (_ _ : Z) : list R := [9/10; 95/100; 1/1000; 1/2; 2].
 Definition wit_friction (_ _ : Z) : list R := [1; 5/1000; 1/10000].
 Definition wit_nil (_ _ : Z) : list R := [].
 
-Lemma mix_rule_refuted_witness :
-  let A := geom_of (fun _ => 3%Z) (fun g => g) (fun _ _ => 1) wit_solref wit_solimp wit_friction (fun _ _ => 0) 0 1 1 1 1 1 0%Z in
-  let B := geom_of (fun _ => 3%Z) (fun g => g) (fun _ _ => 1) wit_solref wit_solimp wit_friction (fun _ _ => 0) 0 1 1 1 1 1 1%Z in
-  contact_material_params (fun _ => 3%Z) (fun g => g) (fun _ _ => 1) wit_solref wit_solimp wit_friction (fun _ _ => 0)
-    (fun _ => 0%Z) wit_nil wit_nil wit_nil (fun _ _ => 0) wit_nil [0%Z; 1%Z] (-1) 0 1 1 1 1 1 1 1 1 1 1
-  <> mj_contact_param A B.
+Lemma priority_direct_solref_witness :
+  let '(_, _, solref, _, _, _) :=
+    contact_material_params (fun _ => 3%Z) (fun g => g) (fun _ _ => 1) wit_solref wit_solimp wit_friction (fun _ _ => 0)
+      (fun _ => 0%Z) wit_nil wit_nil wit_nil (fun _ _ => 0) wit_nil [0%Z; 1%Z] (-1) 0 1 1 1 1 1 1 1 1 1 1 in
+  solref = [2/100; 1].
 Proof.
-  intros A B.
   pose proof (material_priority_second (fun _ => 3%Z) (fun g => g) (fun _ _ => 1) wit_solref wit_solimp wit_friction
     (fun _ _ => 0) (fun _ => 0%Z) wit_nil wit_nil wit_nil (fun _ _ => 0) wit_nil [0%Z; 1%Z] (-1) 0 1 1 1 1 1 1 1 1 1 1) as P.
   cbv zeta in P.
   specialize (P ltac:(lia) eq_refl eq_refl eq_refl eq_refl eq_refl eq_refl ltac:(unfold geom_of, zget; simpl; lia)).
-  rewrite P. clear P.
-  unfold mj_contact_param, mjw_priority_solref, A, B, geom_of. simpl.
-  intro E.
-  apply (f_equal (fun t => match t with (_, _, sr, _, _, _) => sr end)) in E.
-  unfold wit_solref, zget, vget in E. simpl in E.
-  revert E. sR.
-  destruct (Rltb 0 (2 / 100) && Rltb 0 (-100)) eqn:C.
-  - apply andb_prop in C. destruct C as [_ C]. apply Rltb_true in C. lra.
-  - destruct (Rltb (-100) (2 / 100)) eqn:D.
-    + intro E. injection E as E1 E2. lra.
-    + apply Rltb_false in D. lra.
+  rewrite P. reflexivity.
 Qed.
 
 (* ---------- write_contact ---------- *)
